@@ -1262,84 +1262,116 @@ func (g *gen) deviations() {
 				gone[x] = true
 			case 1: // add: only of an absent property
 				dv.Kind = "add"
-				switch {
-				case cur.Kind == KLeaf && len(cur.Default) == 0 && t.Chance(1, 2):
-					dv.Default = []string{g.id("dd")}
-					cur.Default = dv.Default
-				case cur.Kind == KLeafList && t.Chance(1, 2):
-					dv.Default = []string{g.id("dd")}
-					cur.Default = append(cur.Default, dv.Default...)
-				case cur.Config == "" && !underOp(x) && t.Chance(1, 2):
-					dv.Config = []string{"true", "false"}[t.Intn(2)]
-					cur.Config = dv.Config
-				case cur.Mandatory == "" && (cur.Kind == KLeaf || cur.Kind == KChoice || cur.Kind == KAnyData || cur.Kind == KAnyXML) && t.Chance(1, 2):
-					dv.Mandatory = []string{"true", "false"}[t.Intn(2)]
-					cur.Mandatory = dv.Mandatory
-				case isListy && cur.Min == 0 && t.Chance(1, 2):
-					v := t.Range(1, 4)
-					dv.Min = fmt.Sprintf("%d", v)
-					cur.Min = uint64(v)
-				case isListy && cur.Max == MaxUint64 && t.Chance(1, 2):
-					v := t.Range(5, 40)
-					dv.Max = fmt.Sprintf("%d", v)
-					cur.Max = uint64(v)
-				case isLeafy && cur.Units == "":
-					dv.Units = g.id("du")
-					cur.Units = dv.Units
-				default:
+				for np, got := g.devProps(), 0; np > 0; np-- {
+					switch {
+					case cur.Kind == KLeaf && len(cur.Default) == 0 && len(dv.Default) == 0 && t.Chance(1, 2):
+						dv.Default = []string{g.id("dd")}
+						cur.Default = dv.Default
+					case cur.Kind == KLeafList && len(dv.Default) == 0 && t.Chance(1, 2):
+						dv.Default = []string{g.id("dd")} // (the library's deviate statement holds one default)
+						cur.Default = append(cur.Default, dv.Default...)
+					case cur.Config == "" && dv.Config == "" && !underOp(x) && t.Chance(1, 2):
+						dv.Config = []string{"true", "false"}[t.Intn(2)]
+						cur.Config = dv.Config
+					case cur.Mandatory == "" && dv.Mandatory == "" && (cur.Kind == KLeaf || cur.Kind == KChoice || cur.Kind == KAnyData || cur.Kind == KAnyXML) && t.Chance(1, 2):
+						dv.Mandatory = []string{"true", "false"}[t.Intn(2)]
+						cur.Mandatory = dv.Mandatory
+					case isListy && cur.Min == 0 && dv.Min == "" && t.Chance(1, 2):
+						v := t.Range(1, 4)
+						dv.Min = fmt.Sprintf("%d", v)
+						cur.Min = uint64(v)
+					case isListy && cur.Max == MaxUint64 && dv.Max == "" && t.Chance(1, 2):
+						v := t.Range(5, 40)
+						dv.Max = fmt.Sprintf("%d", v)
+						cur.Max = uint64(v)
+					case isLeafy && cur.Units == "" && dv.Units == "":
+						dv.Units = g.id("du")
+						cur.Units = dv.Units
+					default:
+						if got == 0 {
+							np = 0
+						}
+						continue
+					}
+					got++
+				}
+				if len(dv.Default) == 0 && dv.Config == "" && dv.Mandatory == "" && dv.Min == "" && dv.Max == "" && dv.Units == "" {
 					continue
 				}
 			case 2: // replace: only of a present property
 				dv.Kind = "replace"
-				switch {
-				case isLeafy && t.Chance(1, 3):
-					dv.Type = &Type{Ref: Ref{Name: []string{"string", "uint8", "boolean", "int64"}[t.Intn(4)]}}
-					if g.wantInvalid(InvDevBadType) {
-						dv.Type = &Type{Ref: Ref{Mod: dm.Name, Name: g.id("nosuchtype")}}
-						d.Invalid = InvDevBadType
+				for np, got := g.devProps(), 0; np > 0; np-- {
+					switch {
+					case isLeafy && dv.Type == nil && t.Chance(1, 3):
+						dv.Type = &Type{Ref: Ref{Name: []string{"string", "uint8", "boolean", "int64"}[t.Intn(4)]}}
+						if got == 0 && g.wantInvalid(InvDevBadType) {
+							dv.Type = &Type{Ref: Ref{Mod: dm.Name, Name: g.id("nosuchtype")}}
+							d.Invalid = InvDevBadType
+						}
+					case len(cur.Default) > 0 && len(dv.Default) == 0 && cur.Kind != KChoice:
+						dv.Default = []string{g.id("rd")}
+						cur.Default = dv.Default
+					case cur.Config != "" && dv.Config == "":
+						dv.Config = map[string]string{"true": "false", "false": "true"}[cur.Config]
+						cur.Config = dv.Config
+					case cur.Mandatory != "" && dv.Mandatory == "":
+						dv.Mandatory = map[string]string{"true": "false", "false": "true"}[cur.Mandatory]
+						cur.Mandatory = dv.Mandatory
+					case isListy && cur.Min != 0 && dv.Min == "":
+						v := t.Range(1, 9)
+						dv.Min = fmt.Sprintf("%d", v)
+						cur.Min = uint64(v)
+					case isListy && cur.Max != MaxUint64 && dv.Max == "":
+						if t.Chance(1, 4) {
+							dv.Max = "unbounded"
+							cur.Max = MaxUint64
+						} else {
+							v := t.Range(41, 90)
+							dv.Max = fmt.Sprintf("%d", v)
+							cur.Max = uint64(v)
+						}
+					case isLeafy && cur.Units != "" && dv.Units == "":
+						dv.Units = g.id("ru")
+						cur.Units = dv.Units
+					default:
+						if got == 0 {
+							np = 0
+						}
+						continue
 					}
-				case len(cur.Default) > 0 && cur.Kind != KChoice:
-					dv.Default = []string{g.id("rd")}
-					cur.Default = dv.Default
-				case cur.Config != "":
-					dv.Config = map[string]string{"true": "false", "false": "true"}[cur.Config]
-					cur.Config = dv.Config
-				case cur.Mandatory != "":
-					dv.Mandatory = map[string]string{"true": "false", "false": "true"}[cur.Mandatory]
-					cur.Mandatory = dv.Mandatory
-				case isListy && cur.Min != 0:
-					v := t.Range(1, 9)
-					dv.Min = fmt.Sprintf("%d", v)
-					cur.Min = uint64(v)
-				case isListy && cur.Max != MaxUint64:
-					v := t.Range(41, 90)
-					dv.Max = fmt.Sprintf("%d", v)
-					cur.Max = uint64(v)
-				case isLeafy && cur.Units != "":
-					dv.Units = g.id("ru")
-					cur.Units = dv.Units
-				default:
+					got++
+				}
+				if dv.Type == nil && len(dv.Default) == 0 && dv.Config == "" && dv.Mandatory == "" && dv.Min == "" && dv.Max == "" && dv.Units == "" {
 					continue
 				}
 			case 3: // delete: only of a present property, argument matching
 				dv.Kind = "delete"
-				switch {
-				case cur.Kind == KLeaf && len(cur.Default) == 1:
-					dv.Default = []string{cur.Default[0]}
-					cur.Default = nil
-				case cur.Config != "" && t.Chance(1, 2):
-					dv.Config = cur.Config
-					cur.Config = ""
-				case cur.Mandatory != "":
-					dv.Mandatory = cur.Mandatory
-					cur.Mandatory = ""
-				case isListy && cur.Min != 0:
-					dv.Min = fmt.Sprintf("%d", cur.Min)
-					cur.Min = 0
-				case isListy && cur.Max != MaxUint64:
-					dv.Max = fmt.Sprintf("%d", cur.Max)
-					cur.Max = MaxUint64
-				default:
+				for np, got := g.devProps(), 0; np > 0; np-- {
+					switch {
+					case cur.Kind == KLeaf && len(cur.Default) == 1 && len(dv.Default) == 0:
+						dv.Default = []string{cur.Default[0]}
+						cur.Default = nil
+					case cur.Config != "" && dv.Config == "" && t.Chance(1, 2):
+						dv.Config = cur.Config
+						cur.Config = ""
+					case cur.Mandatory != "" && dv.Mandatory == "":
+						dv.Mandatory = cur.Mandatory
+						cur.Mandatory = ""
+					case isListy && cur.Min != 0 && dv.Min == "":
+						dv.Min = fmt.Sprintf("%d", cur.Min)
+						cur.Min = 0
+					case isListy && cur.Max != MaxUint64 && dv.Max == "":
+						dv.Max = fmt.Sprintf("%d", cur.Max)
+						cur.Max = MaxUint64
+					default:
+						if got == 0 {
+							np = 0
+						}
+						continue
+					}
+					got++
+				}
+				if len(dv.Default) == 0 && dv.Config == "" && dv.Mandatory == "" && dv.Min == "" && dv.Max == "" {
 					continue
 				}
 			}
@@ -1356,6 +1388,11 @@ func (g *gen) deviations() {
 			g.s.Mods = append(g.s.Mods, dm)
 		}
 	}
+}
+
+// devProps draws how many properties one deviate statement names.
+func (g *gen) devProps() int {
+	return 1 + g.t.Weighted(6, 3, 1)
 }
 
 func underOp(x *XNode) bool {
